@@ -88,7 +88,30 @@ func (w *world) doBatch(op opT) string {
 		return "trouble"
 	}
 	w.o.Probe("batch")
-	gone := w.takeDisc()
+	// seen: clients the relay saw without any (unlimited) connection at some instant. A client with a DISCONNECT
+	// that also acts in the batch (its RESERVE / CONNECT re-dials when it finds no connection) races its own
+	// reconnect against the close: the relay's notifiee and the harness' may read Connectedness at different
+	// instants, and a request of the client may die with the old connection. Such a client is treated as "may have
+	// disconnected": nothing is asserted from its reservation or requests, its reservation becomes uncertain.
+	seen := w.takeDisc()
+	gone := map[int]bool{}
+	racy := map[int]bool{}
+	for k := range seen {
+		gone[k] = true
+	}
+	for _, d := range subs {
+		if d.skip || d.op.kind != opDisconnect {
+			continue
+		}
+		for _, a := range subs {
+			if !a.skip && a.op.kind != opDisconnect && a.op.a == d.op.a {
+				racy[d.op.a], gone[d.op.a] = true, true
+			}
+		}
+	}
+	if len(racy) > 0 {
+		w.o.Probe("batch-disconnect-races-own-request")
+	}
 	reserved := map[int]bool{}
 	grantedAll := map[int][]string{}
 	G := map[int][]string{}
@@ -280,7 +303,7 @@ func (w *world) doBatch(op opT) string {
 		case opConnect:
 			out += fmt.Sprintf("[%s->%s %s]", c.name(sr.op.a), c.name(sr.op.b), stName(sr.conn.status))
 		case opDisconnect:
-			out += fmt.Sprintf("[%s gone=%v]", c.name(sr.op.a), gone[sr.op.a])
+			out += fmt.Sprintf("[%s gone=%v]", c.name(sr.op.a), seen[sr.op.a])
 		}
 	}
 	// several RESERVEs of one client in the batch: which one the relay handled last is unknown
@@ -301,9 +324,12 @@ func (w *world) doBatch(op opT) string {
 			}
 		}
 	}
+	for k := range racy {
+		reserved[k] = true // applyDisc: uncertain instead of removed
+	}
 	w.applyDisc(gone, reserved)
-	if len(gone) > 0 {
-		out += fmt.Sprintf(" disconnected=%v", sortedKeys(gone))
+	if len(seen) > 0 {
+		out += fmt.Sprintf(" disconnected=%v", sortedKeys(seen))
 	}
 	return out
 }
